@@ -8,12 +8,18 @@ import sys
 from fractions import Fraction
 
 from lib import refexpr as R
+from lib import parts as P
 from lib.common import Part, Run, panic_sig
 from lib.probe import shard_map, worker_probe, nproc
 from lib.registry import Registry, dims_key, render_name, KEYWORDS
 
 _REG = None
 DURATION_UNITS = ["year", "week", "day", "hour", "minute", "second"]
+
+
+SPELLED_FAMILIES = [["ks", "s", "ms", "us", "ns", "ds", "min", "hour"], ["Gm", "Mm", "km", "m", "cm", "mm", "um", "nm", "au", "dm"],
+                    ["Mg", "kg", "g", "mg", "ug"], ["GB", "MB", "kB", "byte", "bit"], ["kW", "W", "mW", "uW"], ["kJ", "J", "mJ"],
+                    ["kilometers", "meters", "feet", "inches"], ["hours", "minutes", "seconds", "ms"]]
 
 
 def get_reg(probe):
@@ -178,6 +184,112 @@ def work(idx, _chunk, seed, n_lists, n_durations):
             cls = "zero" if v == 0 else ("neg" if v < 0 else "pos")
             part.seen("list|%s|%s|%d|%s" % (k, order, ln, cls) + "|" + query)
             part.sample({"query": query[:200], "parts": [str(p)[:40] for p in plist]})
+    # lists written in prefixed spellings (ms;us, km;m), with a float-valued or a negative-valued database unit
+    for _ in range(max(1, n_lists // 8)):
+        r0 = rng.random()
+        if r0 < 0.7:
+            fam = rng.choice(SPELLED_FAMILIES)
+            members = rng.sample(fam, rng.randrange(2, min(5, len(fam)) + 1))
+            vals = {}
+            for n in members:
+                lv, _ = reg.lookup(n)
+                if lv is None or lv.f or lv.v <= 0:
+                    break
+                vals[n] = lv.v
+            if len(vals) != len(members):
+                part.count("spelled_list_unresolved")
+                continue
+            members.sort(key=lambda n: vals[n], reverse=True)
+            uvals = [vals[n] for n in members]
+            v = abs(rand_value(rng, uvals)) or uvals[0]
+            src = members[rng.randrange(len(members))]
+            query = "%s %s -> %s" % (lit(v / vals[src]), src, ";".join(members))
+            part.evaluations += 1
+            r = probe.eval(query, timeout=30, spans=False, json=False)
+            if "timeout" in r or "died" in r:
+                part.inconclusive_event("no reply", {"query": query[:300]})
+                continue
+            if r.get("panics"):
+                part.violation(panic_sig(r["panics"][0]), {"query": query, "panic": r["panics"][0]}, "panic in a unit-list conversion")
+                continue
+            rep = r.get("r") or {}
+            wit = {"query": query[:500], "reply": (r.get("text") or "")[:300]}
+            if rep.get("kind") != "unitlist":
+                part.violation({"kind": "list_not_decomposed", "got": rep.get("kind"), "spelling": "prefixed"}, wit, "")
+                continue
+            plist = [raw_part(x) for x in rep["list"]]
+            if any(p_ is None for p_ in plist) or len(plist) != len(members):
+                part.violation({"kind": "list_reply_malformed"}, wit, "")
+                continue
+            ok = check_laws(part, v, members, uvals, plist, wit, "unitlist-prefixed")
+            # what is printed for each part (numeral x unit name, read the way rink reads names) is that part
+            for e, p_, n, uv in zip(rep["list"], plist, members, uvals):
+                try:
+                    problems = P.check_parts(e, reg, quantity=p_ * uv, qdims=reg.lookup(n)[0].d, list_entry=True)
+                except (P.Unjudgeable, R.OutOfScope):
+                    # the printed unit name is not one rink reads (`megakm`, `kiloteram`)
+                    ok = False
+                    part.violation({"kind": "list_unit_name_unreadable", "how": "SI prefix glued onto the list's spelling"},
+                                   dict(wit, shown=e.get("unit"), member=n),
+                                   "a list part is shown under a unit name that rink itself cannot read")
+                    continue
+                for kind_, detail in problems:
+                    ok = False
+                    part.violation({"kind": "list_part_" + kind_}, dict(wit, shown=e.get("unit"), member=n, detail=detail),
+                                   "a list part is shown as another quantity than part x unit")
+            if ok:
+                part.count("prefixed_list_ok")
+                part.seen("plist|" + ";".join(members))
+        elif r0 < 0.85:
+            # a float-valued unit in the list: parts still whole (all but the last) and adding up, to float precision
+            total = rng.choice([1, 2, 3, 5, 7, 12, 0.5, 100])
+            query = "%s -> semitone;percent" % total if rng.random() < 0.7 else "%s -> octave;semitone;percent" % total
+            names_f = query.split("-> ")[1].split(";")
+            part.evaluations += 1
+            r = probe.eval(query, timeout=30, spans=False, json=False)
+            rep = r.get("r") or {}
+            if r.get("panics"):
+                part.violation(panic_sig(r["panics"][0]), {"query": query, "panic": r["panics"][0]}, "panic in a unit-list conversion")
+                continue
+            if rep.get("kind") != "unitlist":
+                part.count("float_list_not_decomposed:%s" % rep.get("kind"))
+                continue
+            try:
+                fparts = [float(x["raw"]["fv"]) if x["raw"].get("f") else float(Fraction(int(x["raw"]["n"]), int(x["raw"]["d"]))) for x in rep["list"]]
+                fvals = []
+                for n in names_f:
+                    lv, _ = reg.lookup(n)
+                    fvals.append(float(lv.v))
+            except (KeyError, TypeError, ValueError, AttributeError):
+                part.count("float_list_unreadable")
+                continue
+            wit = {"query": query, "reply": (r.get("text") or "")[:200]}
+            ssum = sum(a * b for a, b in zip(fparts, fvals))
+            if abs(ssum - total) > 1e-9 * max(1, abs(total)):
+                part.violation({"kind": "sum_differs", "what": "unitlist-float"}, dict(wit, sum=ssum), "parts of a float-valued list do not add up")
+            elif any(abs(x - round(x)) > 1e-9 for x in fparts[:-1]):
+                part.violation({"kind": "non_final_part_not_integer", "what": "unitlist-float"}, dict(wit, parts=fparts), "")
+            else:
+                part.count("float_list_ok")
+                part.seen("flist|" + query)
+        else:
+            # a negative-valued database unit: the parts cannot all have the value's sign, so the list has to be refused
+            query = rng.choice(["%d K -> delisle_absolute;K", "%d -> g00;percent", "%d -> g000;g00;percent", "%d K -> K;delisle_absolute"]) % rng.randrange(1, 500)
+            part.evaluations += 1
+            r = probe.eval(query, timeout=30, spans=False, json=False)
+            rep = r.get("r") or {}
+            if r.get("panics"):
+                part.violation(panic_sig(r["panics"][0]), {"query": query, "panic": r["panics"][0]}, "panic in a unit-list conversion")
+            elif rep.get("kind") == "unitlist":
+                ps = [raw_part(x) for x in rep["list"]]
+                if any(p_ is not None and p_ < 0 for p_ in ps):
+                    part.violation({"kind": "part_sign_differs", "what": "unitlist-negative-unit"},
+                                   {"query": query, "reply": (r.get("text") or "")[:200]}, "a part has the opposite sign of the value")
+                else:
+                    part.count("negative_unit_list_parts_share_sign")
+            else:
+                part.count("negative_unit_list_refused")
+                part.seen("neglist|" + query.split("->")[1])
     # durations: automatic year/week/day/hour/minute/second breakdown of time results
     duvals = [reg.lookup_exact(n).v for n in DURATION_UNITS]
     time_units = classes.get((("s", 1),), ["second"])
